@@ -49,6 +49,15 @@ impl<T> VpIter<T> {
                 && (forall|k: int| 0 <= k < i ==> f.ensures((#[trigger] old(self).rest()[k],), false)),
             r is None ==> (forall|k: int| 0 <= k < old(self).rest().len() ==> f.ensures((#[trigger] old(self).rest()[k],), false)),
     { unimplemented!() }
+    /// `rposition(p)`: index of the last element satisfying p
+    #[verifier::external_body]
+    pub fn rposition<F: FnMut(T) -> bool>(&mut self, f: F) -> (r: Option<usize>)
+        requires forall|x: T| f.requires((x,)),
+        ensures
+            r matches Some(i) ==> i < old(self).rest().len() && f.ensures((old(self).rest()[i as int],), true)
+                && (forall|k: int| i < k < old(self).rest().len() ==> f.ensures((#[trigger] old(self).rest()[k],), false)),
+            r is None ==> (forall|k: int| 0 <= k < old(self).rest().len() ==> f.ensures((#[trigger] old(self).rest()[k],), false)),
+    { unimplemented!() }
     #[verifier::external_body]
     pub fn all<F: FnMut(T) -> bool>(&mut self, f: F) -> (r: bool)
         requires forall|x: T| f.requires((x,)),
@@ -132,7 +141,7 @@ impl<T> VpIter<T> {
     /// `map(f)`: element-wise; each result is a possible result of `f` on the corresponding element
     #[verifier::external_body]
     pub fn map<U, F: FnMut(T) -> U>(self, f: F) -> (r: VpIter<U>)
-        requires forall|x: T| f.requires((x,)),
+        requires forall|k: int| 0 <= k < self.rest().len() ==> f.requires((#[trigger] self.rest()[k],)),
         ensures r.rest().len() == self.rest().len(), forall|k: int| 0 <= k < r.rest().len() ==> f.ensures((self.rest()[k],), #[trigger] r.rest()[k]),
     { unimplemented!() }
 }
@@ -179,6 +188,11 @@ impl<'a> VpSlice<'a> {
     #[verifier::external_body]
     pub fn last(self) -> (r: Option<&'a SyntaxNode>)
         ensures self@.len() == 0 ==> r is None, self@.len() > 0 ==> r == Some(self@.last()) { unimplemented!() }
+    /// `s.get(i..=j).unwrap_or_default()`: the inclusive range, or the empty slice when it is out of bounds or i > j + 1
+    #[verifier::external_body]
+    pub fn vp_get_incl_or_empty(self, i: usize, j: usize) -> (r: VpSlice<'a>)
+        ensures r@ == (if j < self@.len() && i <= j + 1 { self@.subrange(i as int, j + 1) } else { Seq::empty() }),
+    { unimplemented!() }
     /// `&s[start..]`
     #[verifier::external_body]
     pub fn vp_range_from(self, start: usize) -> (r: VpSlice<'a>)
